@@ -236,6 +236,37 @@ def rand_expr(rng, ty, vars_by_type, depth):
     return Bin('+', rand_expr(rng, ty, vars_by_type, depth - 1), rand_expr(rng, ty, vars_by_type, depth - 1))
 
 
+def has_dead_trap(e, params, ret_ty):
+    """True if for some input an arithmetic trap (overflow, underflow, division by zero) fires in a
+    sub-expression whose value cannot influence the result (e.g. `(x - 1) & 0`). Sway documents such
+    arithmetic as undefined behaviour and its optimizers remove dead pure operations, so whether the
+    trap is observed depends on the pipeline; such kernels are not generated (stated in DESIGN.md).
+    Decided by a solver query with the trapping operation's value replaced by a fresh constant
+    (three-point independence test)."""
+    sp = Spec({})
+    sp.fresh_on_trap = True
+    env, types = {}, {}
+    for nm, t in params:
+        env[nm] = z3.Bool(nm) if isinstance(t, Bool) else z3.BitVec(nm, t.w)
+        types[nm] = t
+    val = ev(e, Frame(env, types), sp, z3.BoolVal(True))
+    if not sp.traps:
+        return False
+    s = z3.Solver()
+    s.set('timeout', 3000)
+    for cond, f in sp.traps:
+        w = f.size()
+        samples = [z3.substitute(val, (f, z3.BitVecVal(c, w))) for c in (0, 1, (1 << w) - 1, 0x5a5a5a5a5a5a5a5a & ((1 << w) - 1))]
+        same = z3.And(*[samples[0] == x for x in samples[1:]])
+        s.push()
+        s.add(cond, same)
+        r = s.check()
+        s.pop()
+        if r != z3.unsat:
+            return True
+    return False
+
+
 def fam_random_exprs(pool, rng, n, depth=3):
     ks = []
     params = POOLS[pool]
@@ -245,7 +276,10 @@ def fam_random_exprs(pool, rng, n, depth=3):
         vbt = {}
         for nm, t in scal:
             vbt.setdefault(t, []).append(nm)
-        e = rand_expr(rng, ty, vbt, depth)
+        for _attempt in range(50):
+            e = rand_expr(rng, ty, vbt, depth)
+            if not has_dead_trap(e, scal, ty):
+                break
         nm = f'rx{i}_{ty.sway()}'
         ks.append(Kernel(nm, [fn1(nm, scal, ty, e)], nm, [n_ for n_, _ in scal], 'randexpr', f'depth {depth}'))
     return ks
@@ -729,7 +763,7 @@ def kernel_spec(pkg, k, env):
             return None
         rev, val, ty = r
         return {'revert': z3.simplify(rev), 'alts': abi_encode(val, ty), 'ret_ty': ty, 'fallthrough': []}
-    fns = {f.name: f for f in k.fns}
+    fns = {f.name: f for kk in pkg.kernels for f in kk.fns}
     spec = Spec(fns)
     f = fns[k.entry]
     args = [env[a] for a in k.args]
